@@ -6,13 +6,13 @@ from .universe import CS, FS, Universe
 LEGACY_PRELUDE = """\
 import enum
 from dataclasses import dataclass, field
-from typing import Any, Optional, Union, Tuple, List
+from typing import Any, Optional, Sequence, Union, Tuple, List
 from pyoak.legacy.node import AwareASTNode
 from pyoak.origin import Origin
 """
 
 
-def legacy_specs(P: str = "G") -> list[CS]:
+def legacy_specs(P: str = "G", runtime_only: bool = False) -> list[CS]:
     N = f"{P}Node"
     return [
         CS(N, ("AwareASTNode",), [], abstract=True),
@@ -40,17 +40,32 @@ def legacy_specs(P: str = "G") -> list[CS]:
                 FS("kwargs", "child", f"List[{N}]", "list", (N,), default="field(default_factory=list)"),
             ],
         ),
-    ]
+        # a class that is not defined at module top level
+        CS(f"{P}Inner", (N,), [FS("v", "prop", "int", "int", default="0"), FS("kid", "child", f"{N} | None", "opt", (N,), default="None")], local=True),
+        # a node class that is falsy while it has no statements (a header child may still be present)
+        CS(
+            f"{P}Block",
+            (N,),
+            [FS("header", "child", f"{N} | None", "opt", (N,), default="None"), FS("stmts", "child", f"tuple[{N}, ...]", "tuple", (N,), default="()")],
+            body="    def __len__(self):\n        return len(self.stmts)\n",
+        ),
+    ] + (
+        # a field that is a child field only by what it holds at run time (the annotation is not a child annotation)
+        [CS(f"{P}Seq", (N,), [FS("elems", "child", f"Sequence[{N}]", "tuple", (N,), default="()"), FS("n", "prop", "int", "int", default="0")])]
+        if runtime_only
+        else []
+    )
 
 
-_CACHE: dict[str, Universe] = {}
+_CACHE: dict = {}
 
 
-def legacy_universe(P: str = "G") -> Universe:
-    if P not in _CACHE:
-        specs = legacy_specs(P)
+def legacy_universe(P: str = "G", runtime_only: bool = False) -> Universe:
+    key = (P, runtime_only)
+    if key not in _CACHE:
+        specs = legacy_specs(P, runtime_only)
         # FS.render puts default=... inside field(); for default_factory the source is given verbatim
-        u = Universe(f"verif_legacy_{P}", [], prelude=LEGACY_PRELUDE, root_base="AwareASTNode", frozen=False)
+        u = Universe(f"verif_legacy_{P}{int(runtime_only)}", [], prelude=LEGACY_PRELUDE, root_base="AwareASTNode", frozen=False)
         src = u.source
         for s in specs:
             lines = []
@@ -60,7 +75,10 @@ def legacy_universe(P: str = "G") -> Universe:
                 else:
                     lines.append(f.render())
             body = "\n".join(lines) if lines else "    pass"
-            src += f"@dataclass\nclass {s.name}({', '.join(s.bases)}):\n{body}\n\n"
+            csrc = f"@dataclass\nclass {s.name}({', '.join(s.bases)}):\n{body}\n{s.body}\n"
+            if s.local:
+                csrc = f"def _make_{s.name}():\n" + "".join("    " + ln + "\n" for ln in csrc.splitlines()) + f"    return {s.name}\n\n{s.name} = _make_{s.name}()\n\n"
+            src += csrc
         u.source = src
         u.specs = {s.name: s for s in specs}
         u.order = [s.name for s in specs]
@@ -70,5 +88,5 @@ def legacy_universe(P: str = "G") -> Universe:
             warnings.simplefilter("ignore", DeprecationWarning)
             u.exec()
         u.P = P
-        _CACHE[P] = u
-    return _CACHE[P]
+        _CACHE[key] = u
+    return _CACHE[key]
